@@ -11,4 +11,5 @@ INVARIANT ReaderSeesProps
 INVARIANT CrashSafe
 PROPERTY FinalImmutable
 PROPERTY VisibilityMonotone
+PROPERTY OrphanNeverPublished
 CHECK_DEADLOCK FALSE
